@@ -19,6 +19,10 @@
 static void harness_setup(void) { if (core_init() != RLC_OK) exit(2); vf_reseed(); tiny_curves_setup(); ep2_common_setup(); }
 static void seed_drbg(unsigned long s) { uint8_t seed[64]; for (int i = 0; i < 64; i++) seed[i] = (uint8_t)(i * 11 + 3 + s * 29 + (s >> 2) * i); core_get()->seeded = 0; rand_seed(seed, sizeof seed); }
 static unsigned long long njudged = 0;
+#ifdef FAM /* builds of the other pairing families: the set pc_param_set_any selects, whatever identifier a case names */
+static int fam_state = 0; static int select_any(void) { if (!fam_state) { int th, v = RLC_ERR; VF_TRY(th, v = pc_param_set_any()); fam_state = (!th && v == RLC_OK) ? 1 : -1; if (fam_state == 1) vf_fp_sync(); } return fam_state == 1; }
+#define select_pc(C) select_any()
+#endif
 #define CHECK(cond, ...) do { transitions++; njudged++; if (!(cond)) vf_fail(NULL, __VA_ARGS__); } while (0)
 
 /* ---------------------------------------------------------------- private set intersection */
@@ -70,6 +74,9 @@ static void mutate(gt_t *g, int ng, int i, int kind, const gt_t E) { gt_t t; gt_
 /* an element of small prime order l outside GT: l | Phi_12(p) / r found by trial division, w = f^((p^12 - 1) / l) != 1 computed by the reference tower */
 static gt_t SMALLW; static unsigned long SMALLL = 0; static long smallw_cid = -1;
 static int small_order_element(long cid) {
+#ifdef FAM
+	(void)cid; return 0; /* the cofactor of the target group is family-specific: not built here */
+#endif
 	if (smallw_cid == cid) return SMALLL != 0; smallw_cid = cid; SMALLL = 0; static int init = 0; if (!init) { gt_null(SMALLW); gt_new(SMALLW); init = 1; }
 	mpz_t phi, r, t, e; mpz_inits(phi, r, t, e, NULL); bn_t ord; bn_null(ord); bn_new(ord); pc_get_ord(ord); vf_bn_get(r, ord); bn_free(ord);
 	mpz_pow_ui(phi, vf_p, 4); mpz_pow_ui(t, vf_p, 2); mpz_sub(phi, phi, t); mpz_add_ui(phi, phi, 1); /* Phi_12(p) */ if (!mpz_divisible_p(phi, r)) { mpz_clears(phi, r, t, e, NULL); return 0; } mpz_divexact(phi, phi, r);
@@ -82,7 +89,7 @@ static int small_order_element(long cid) {
 static void do_del(vf_case *c) {
 	int proto = (int)mpz_get_si(c->v[0]); long cid = mpz_get_si(c->v[1]); int as = (int)mpz_get_si(c->v[2]), bs = (int)mpz_get_si(c->v[3]); unsigned long seed = mpz_get_ui(c->v[4]); int th, v;
 	if (!select_pc(cid)) { vf_fail(NULL, "parameter set refused"); return; } seed_drbg(seed);
-	static const char *PN[] = {"cp_pdpub", "cp_lvpub", "cp_pdprv", "cp_lvprv"}; static const int NG[] = {3, 2, 4, 4}; int ng = NG[proto];
+	static const char *PN[] = {"cp_pdpub", "cp_lvpub", "cp_pdprv", "cp_lvprv"}; static const int NG[] = {3, 2, 4, 3}; /* cp_lvprv_ans fills three of its four slots */ int ng = NG[proto];
 	bn_t ord, a, b, cc, r1, r2[3]; g1_t P, u1[2], v1[3]; g2_t Q, u2[2], v2[4], w2[4]; gt_t E, e[2], r, g[4], gh[4];
 	bn_null(ord); bn_null(a); bn_null(b); bn_null(cc); bn_null(r1); bn_new(ord); bn_new(a); bn_new(b); bn_new(cc); bn_new(r1); g1_null(P); g1_new(P); g2_null(Q); g2_new(Q); gt_null(E); gt_new(E); gt_null(r); gt_new(r);
 	for (int i = 0; i < 3; i++) { bn_null(r2[i]); bn_new(r2[i]); g1_null(v1[i]); g1_new(v1[i]); } for (int i = 0; i < 2; i++) { g1_null(u1[i]); g1_new(u1[i]); g2_null(u2[i]); g2_new(u2[i]); gt_null(e[i]); gt_new(e[i]); } for (int i = 0; i < 4; i++) { g2_null(v2[i]); g2_new(v2[i]); g2_null(w2[i]); g2_new(w2[i]); gt_null(g[i]); gt_new(g[i]); gt_null(gh[i]); gt_new(gh[i]); }
@@ -165,14 +172,14 @@ static void do_tri(vf_case *c) {
 		for (int i = 0; i < 2; i++) { VF_TRY(th, g1_mul_mpc(d[i], l[i], d[i], tri[i], i)); if (th) { vf_fail(NULL, "g1_mul_mpc raised"); goto done; } } g1_add(d[0], d[0], d[1]); g1_norm(d[0], d[0]);
 		CHECK(g1_cmp(d[0], E) == RLC_EQ, "g1 multiplication triple: the shares do not add to [k]P (k sel %d, P sel %d, split %d)", ks, ps, how); }
 	else if (kind == 1) { g2_t P, p[2], d[2], b2[2], c2[2], E; g2_null(P); g2_new(P); g2_null(E); g2_new(E); for (int i = 0; i < 2; i++) { g2_null(p[i]); g2_new(p[i]); g2_null(d[i]); g2_new(d[i]); g2_null(b2[i]); g2_new(b2[i]); g2_null(c2[i]); g2_new(c2[i]); }
-		if (ps == 0) g2_set_infty(P); else if (ps == 1) g2_get_gen(P); else g2_rand(P); ep2_mul_basic(E, P, K); if (how % 3 == 0) g2_set_infty(p[1]); else if (how % 3 == 1) g2_copy(p[1], P); else g2_rand(p[1]); g2_sub(p[0], P, p[1]); g2_norm(p[0], p[0]);
+		if (ps == 0) g2_set_infty(P); else if (ps == 1) g2_get_gen(P); else g2_rand(P); RLC_CAT(RLC_G2_LOWER, mul_basic)(E, P, K); if (how % 3 == 0) g2_set_infty(p[1]); else if (how % 3 == 1) g2_copy(p[1], P); else g2_rand(p[1]); g2_sub(p[0], P, p[1]); g2_norm(p[0], p[0]);
 		for (int i = 0; i < 2; i++) { g2_mul_gen(b2[i], tri[i]->b); g2_mul_gen(c2[i], tri[i]->c); tri[i]->b2 = &b2[i]; tri[i]->c2 = &c2[i]; }
 		for (int i = 0; i < 2; i++) { VF_TRY(th, g2_mul_lcl(l[i], d[i], k[i], p[i], tri[i])); if (th) { vf_fail(NULL, "g2_mul_lcl raised"); goto done; } } VF_TRY(th, g2_mul_bct(l, d)); if (th) { vf_fail(NULL, "g2_mul_bct raised"); goto done; }
 		CHECK(bn_cmp(l[0], l[1]) == RLC_EQ && g2_cmp(d[0], d[1]) == RLC_EQ, "g2_mul_bct: the parties hold different opened values");
 		for (int i = 0; i < 2; i++) { VF_TRY(th, g2_mul_mpc(d[i], l[i], d[i], tri[i], i)); if (th) { vf_fail(NULL, "g2_mul_mpc raised"); goto done; } } g2_add(d[0], d[0], d[1]); g2_norm(d[0], d[0]);
 		CHECK(g2_cmp(d[0], E) == RLC_EQ, "g2 multiplication triple: the shares do not add to [k]Q (k sel %d, Q sel %d, split %d)", ks, ps, how); }
 	else if (kind == 2) { gt_t P, p[2], d[2], bt[2], ct[2], E; gt_null(P); gt_new(P); gt_null(E); gt_new(E); for (int i = 0; i < 2; i++) { gt_null(p[i]); gt_new(p[i]); gt_null(d[i]); gt_new(d[i]); gt_null(bt[i]); gt_new(bt[i]); gt_null(ct[i]); gt_new(ct[i]); }
-		if (ps == 0) gt_set_unity(P); else if (ps == 1) gt_get_gen(P); else gt_rand(P); fp12_exp(E, P, K); if (how % 3 == 0) gt_set_unity(p[1]); else if (how % 3 == 1) gt_copy(p[1], P); else gt_rand(p[1]); gt_inv(p[0], p[1]); gt_mul(p[0], p[0], P);
+		if (ps == 0) gt_set_unity(P); else if (ps == 1) gt_get_gen(P); else gt_rand(P); RLC_CAT(RLC_GT_LOWER, exp)(E, P, K); if (how % 3 == 0) gt_set_unity(p[1]); else if (how % 3 == 1) gt_copy(p[1], P); else gt_rand(p[1]); gt_inv(p[0], p[1]); gt_mul(p[0], p[0], P);
 		for (int i = 0; i < 2; i++) { gt_exp_gen(bt[i], tri[i]->b); gt_exp_gen(ct[i], tri[i]->c); tri[i]->bt = &bt[i]; tri[i]->ct = &ct[i]; }
 		for (int i = 0; i < 2; i++) { VF_TRY(th, gt_exp_lcl(l[i], d[i], k[i], p[i], tri[i])); if (th) { vf_fail(NULL, "gt_exp_lcl raised"); goto done; } } VF_TRY(th, gt_exp_bct(l, d)); if (th) { vf_fail(NULL, "gt_exp_bct raised"); goto done; }
 		CHECK(bn_cmp(l[0], l[1]) == RLC_EQ && gt_cmp(d[0], d[1]) == RLC_EQ, "gt_exp_bct: the parties hold different opened values");
@@ -198,14 +205,20 @@ static void run_case(vf_case *c) {
 static vf_case K;
 static void enumerate(void) {
 	vf_case_init(&K);
+#ifdef FAM
+	static const int PC[] = {0, 0}; static const int EC[] = {0, 0, 0, 0, 0, 0}; vf_tier = 0; /* one set per build: the quick-tier sizes of each bound */
+#else
 	static const int PC[] = {BN_P256, SM9_P256}; static const int EC[] = {NIST_P256, SECG_K256, BN_P256, SM2_P256, BSI_P256, SM9_P256};
+#endif
 	if (vf_bound_on("set-intersection-all-subset-pairs")) { for (int proto = 0; proto < 3; proto++) for (int order = 0; order < (vf_tier ? 2 : 1); order++) for (int sd = 0; sd < (vf_tier ? 2 : 1); sd++)
 			for (unsigned xm = 0; xm < (1u << UNI); xm++) { if (__builtin_popcount(xm) > MAXS) continue; for (unsigned ym = 0; ym < (1u << UNI) && !vf_expired(); ym++) { if (__builtin_popcount(ym) > MAXS) continue; if (!vf_tier && ((xm | ym) & (1u << 5)) && (xm + ym) % 3) continue; if (order && xm == 0 && ym == 0) continue;
 					if (vf_mine()) { K.op = "psi"; K.n = 5; mpz_set_si(K.v[0], proto); mpz_set_ui(K.v[1], xm); mpz_set_ui(K.v[2], ym); mpz_set_si(K.v[3], order); mpz_set_si(K.v[4], sd); vf_run(&K); } } }
 		vf_bound_done("set-intersection-all-subset-pairs"); }
 	if (vf_bound_on("delegated-pairing-all-helper-mutations")) { for (int proto = 0; proto < 4; proto++) for (unsigned ci = 0; ci < (vf_tier ? 2 : 1); ci++) for (int a = 0; a < 5; a++) for (int b = 0; b < 5; b++) for (int sd = 0; sd < (vf_tier ? 3 : 1); sd++) if (vf_mine() && !vf_expired()) { K.op = "del"; K.n = 5; mpz_set_si(K.v[0], proto); mpz_set_si(K.v[1], PC[ci]); mpz_set_si(K.v[2], a); mpz_set_si(K.v[3], b); mpz_set_si(K.v[4], sd); vf_run(&K); }
 		vf_bound_done("delegated-pairing-all-helper-mutations"); }
+#ifndef FAM
 	if (vf_bound_on("pedersen")) { for (unsigned ci = 0; ci < (vf_tier ? 6 : 3); ci++) for (int xs = 0; xs < 7; xs++) for (int rs = 0; rs < 7; rs++) for (int hs = 0; hs < 4; hs++) if (vf_mine()) { K.op = "ped"; K.n = 5; mpz_set_si(K.v[0], EC[ci]); mpz_set_si(K.v[1], xs); mpz_set_si(K.v[2], rs); mpz_set_si(K.v[3], hs); mpz_set_si(K.v[4], xs + rs); vf_run(&K); } vf_bound_done("pedersen"); }
+#endif
 	if (vf_bound_on("pairing-group-triples")) { for (int kind = 0; kind < 4; kind++) for (unsigned ci = 0; ci < (vf_tier ? 2 : 1); ci++) for (int ks = 0; ks < 5; ks++) for (int ps = 0; ps < 3; ps++) for (int how = 0; how < (kind == 3 ? 9 : 6); how++) for (int sd = 0; sd < (vf_tier ? 2 : 1); sd++) if (vf_mine() && !vf_expired()) { K.op = "tri"; K.n = 6; mpz_set_si(K.v[0], kind); mpz_set_si(K.v[1], PC[ci]); mpz_set_si(K.v[2], ks); mpz_set_si(K.v[3], ps); mpz_set_si(K.v[4], how); mpz_set_si(K.v[5], sd); vf_run(&K); }
 		vf_bound_done("pairing-group-triples"); }
 	vf_stat_add("transitions", transitions); vf_stat_add("x.verdicts_judged", njudged);
